@@ -33,6 +33,7 @@ type Context struct {
 	committedRAT   *comp.RAT[RegisterType, int32]
 	transactionRAT *comp.RAT[RegisterType, transactionUnit]
 	rat            bool
+	verif          verifState
 }
 
 type transactionUnit struct {
